@@ -353,3 +353,220 @@ Proof.
   apply (lead_eol (fun lw f => match f with Eol => ret (None, ctx_of x) | Field => parse_record_fields (ctx_of x) (r_pos rd0) lw end) e
                   (None, ctx_of x) He); [reflexivity|exact E|exact P|exact W|exact Ht].
 Qed.
+
+(* ---- $ORIGIN and $TTL -------------------------------------------------------------------------------------------------------------------- *)
+
+Lemma expect_field_ci_yes fld tok b : length tok = length fld -> eq_ignore_case tok fld = true ->
+  Forall (fun c => c <> 10) tok -> runs fend (expect_field_ci fld) tok b b true.
+Proof.
+  intros Hl Hc Hn r t E P W Ht. unfold expect_field_ci, expect_field_impl.
+  rewrite E, <- Hl, firstn_app_exact, Nat.eqb_refl, Hc, at_field_end_at_app. unfold fend in Ht. rewrite Ht. cbn [bind].
+  eexists. split; [reflexivity|]. subst b. apply post_adv; assumption.
+Qed.
+
+Lemma apply_case_no_nl lows s : Forall (fun c => c <> 10) s -> Forall (fun c => lower c <> 10) s ->
+  Forall (fun c => c <> 10) (apply_case lows s).
+Proof.
+  revert lows. induction s as [|c s IH]; intros lows H1 H2; [constructor|]. inversion H1; subst. inversion H2; subst.
+  cbn [apply_case]. constructor; [destruct (hd false lows); assumption|apply IH; assumption].
+Qed.
+
+Lemma directive_word lows w b : Forall (fun c => c <> 10) w -> Forall (fun c => lower c <> 10) w ->
+  runs fend (expect_field_ci w) (apply_case lows w) b b true.
+Proof.
+  intros H1 H2. apply expect_field_ci_yes; [apply apply_case_length|rewrite eqic_apply_case, eqic_lower; apply bytes_eqb_refl|apply apply_case_no_nl; assumption].
+Qed.
+
+Lemma origin_word_ok : Forall (fun c => c <> 10) d_origin /\ Forall (fun c => lower c <> 10) d_origin.
+Proof. split; repeat constructor; discriminate. Qed.
+Lemma ttl_word_ok : Forall (fun c => c <> 10) d_ttl /\ Forall (fun c => lower c <> 10) d_ttl.
+Proof. split; repeat constructor; discriminate. Qed.
+
+Theorem origin_line_parses x lows s nc ls e t rd0 : sctx_good x -> line_ok x (LOrigin lows s nc ls e) = true ->
+  r_rest rd0 = render_line (LOrigin lows s nc ls e) ++ t -> r_paren rd0 = false -> wfr rd0 -> eoft (e_term e) t ->
+  exists rd1, parse_line (ctx_of x) rd0 = Ok ((None, ctx_of (after_line x (LOrigin lows s nc ls e))), rd1) /\
+              post rd0 rd1 (render_line (LOrigin lows s nc ls e)) t false.
+Proof.
+  intros Hx Hok E P W Ht. cbn [line_ok] in Hok. destruct (sep_ok false false s) as [p1|] eqn:Es; [|discriminate].
+  apply andb_true_iff in Hok. destruct Hok as [Hnm He]. pose proof (sep_ok_inv _ _ _ _ Es) as [HP HE].
+  cbn [render_line] in *.
+  assert (Hd : parse_line (ctx_of x) rd0 = parse_directive (ctx_of x) rd0).
+  { unfold parse_line, peek_octet. rewrite E. cbn [apply_case d_origin_s app hd_error].
+    destruct (hd false lows); reflexivity. }
+  rewrite Hd. revert rd0 E P W Hd. intros rd0 E P W _. revert rd0 t E P W Ht.
+  change (runs (eoft (e_term e)) (parse_directive (ctx_of x))
+               (apply_case lows d_origin_s ++ render_sep s ++ render_name nc ls ++ render_eol e) false false
+               (None, ctx_of (after_line x (LOrigin lows s nc ls e)))).
+  unfold parse_directive.
+  eapply runs_bind; [apply (directive_word lows d_origin); apply origin_word_ok| |].
+  { intros t Ht. rewrite <- app_assoc. eapply fend_sep; [exact HP|apply HE; reflexivity]. }
+  cbv beta iota. apply runs_app_nil. eapply runs_bind; [|intros t Ht; exact Ht|cbv beta; apply runs_ret].
+  unfold parse_origin_directive.
+  eapply runs_bind; [apply skip_to_next_field_runs; exact HP| |].
+  { intros t Ht. destruct (name_head _ _ _ _ _ Hnm) as (h & tl & Eh & Hp). rewrite Eh. cbn [app]. apply fstart_plain. exact Hp. }
+  cbv beta. eapply runs_bind; [eapply name_runs; [exact Hnm|exact Hx]|intros t Ht; eapply fend_eol; eassumption|].
+  cbv beta. apply runs_app_nil. eapply runs_bind; [apply expect_eol_runs; exact He|intros t Ht; exact Ht|].
+  cbv beta. apply runs_ret.
+Qed.
+
+Lemma not_origin_word lows rest r : r_rest r = apply_case lows d_ttl_s ++ rest -> expect_field_ci d_origin r = Ok (false, r).
+Proof.
+  intros E. apply expect_field_differs. rewrite E. cbn [apply_case d_ttl_s d_origin length app firstn].
+  destruct (hd false lows); destruct (hd false (tl lows)); reflexivity.
+Qed.
+
+Theorem ttl_line_parses x lows s ic raw e t rd0 : line_ok x (LTtl lows s ic raw e) = true ->
+  r_rest rd0 = render_line (LTtl lows s ic raw e) ++ t -> r_paren rd0 = false -> wfr rd0 -> eoft (e_term e) t ->
+  exists rd1, parse_line (ctx_of x) rd0 = Ok ((None, ctx_of (after_line x (LTtl lows s ic raw e))), rd1) /\
+              post rd0 rd1 (render_line (LTtl lows s ic raw e)) t false.
+Proof.
+  intros Hok E P W Ht. cbn [line_ok] in Hok. destruct (sep_ok false false s) as [p1|] eqn:Es; [|discriminate].
+  apply andb_true_iff in Hok. destruct Hok as [Hu He]. pose proof (sep_ok_inv _ _ _ _ Es) as [HP HE].
+  cbn [render_line] in *.
+  assert (Hd : parse_line (ctx_of x) rd0 = parse_directive (ctx_of x) rd0).
+  { unfold parse_line, peek_octet. rewrite E. cbn [apply_case d_ttl_s app hd_error].
+    destruct (hd false lows); reflexivity. }
+  rewrite Hd. revert rd0 E P W Hd. intros rd0 E P W _. revert rd0 t E P W Ht.
+  change (runs (eoft (e_term e)) (parse_directive (ctx_of x))
+               (apply_case lows d_ttl_s ++ render_sep s ++ render_uint ic raw ++ render_eol e) false false
+               (None, ctx_of (after_line x (LTtl lows s ic raw e)))).
+  unfold parse_directive.
+  eapply runs_peek; [intros r0 t0 E0 _; rewrite <- app_assoc in E0; eapply not_origin_word; exact E0|].
+  cbv beta iota.
+  eapply runs_bind; [apply (directive_word lows d_ttl); apply ttl_word_ok| |].
+  { intros t Ht. rewrite <- app_assoc. eapply fend_sep; [exact HP|apply HE; reflexivity]. }
+  cbv beta iota. apply runs_app_nil. eapply runs_bind; [|intros t Ht; exact Ht|cbv beta; apply runs_ret].
+  unfold parse_ttl_directive.
+  eapply runs_bind; [apply skip_to_next_field_runs; exact HP| |].
+  { intros t Ht. destruct (uint_head ic raw) as (h & tl & Eh & _ & Hp). rewrite Eh. cbn [app]. apply fstart_plain. exact Hp. }
+  cbv beta. eapply runs_bind; [apply u32_runs; exact Hu|intros t Ht; eapply fend_eol; eassumption|].
+  cbv beta. apply runs_app_nil. eapply runs_bind; [apply expect_eol_runs; exact He|intros t Ht; exact Ht|].
+  cbv beta. unfold after_line, ctx_of. cbn [x_origin x_owner x_ttl x_class x_default c_origin c_prev_owner c_prev_ttl c_prev_class]. rewrite ttl_from_denote. apply runs_ret.
+Qed.
+
+(* ---- any line ---------------------------------------------------------------------------------------------------------------------------------- *)
+
+Theorem line_parses x l t rd0 : sctx_good x -> line_ok x l = true ->
+  r_rest rd0 = render_line l ++ t -> r_paren rd0 = false -> wfr rd0 -> eoft (e_term (line_end l)) t ->
+  exists rd1, parse_line (ctx_of x) rd0 =
+                Ok ((match l with LRecord _ r => Some (item_of (p_line (r_pos rd0)) r) | _ => None end, ctx_of (after_line x l)), rd1) /\
+              post rd0 rd1 (render_line l) t false.
+Proof.
+  intros Hx Hok E P W Ht. destruct l as [rc r|e|lows s nc ls e|lows s ic raw e]; cbn [line_end] in Ht.
+  - eapply record_line_parses; eassumption.
+  - cbn [after_line]. eapply blank_line_parses; eassumption.
+  - eapply origin_line_parses; eassumption.
+  - eapply ttl_line_parses; eassumption.
+Qed.
+
+Lemma after_line_good x l : sctx_good x -> line_ok x l = true -> sctx_good (after_line x l).
+Proof.
+  intros Hx Hok. destruct l as [rc r|e|lows s nc ls e|lows s ic raw e]; cbn [after_line]; try exact Hx.
+  cbn [line_ok] in Hok. destruct (sep_ok false false s); [|discriminate]. apply andb_true_iff in Hok. destruct Hok as [Hnm _].
+  unfold sctx_good. cbn [x_origin]. intros ols [= <-]. eapply name_ok_good. exact Hnm.
+Qed.
+
+(* ---- whole files (stage 4) ------------------------------------------------------------------------------------------------------------------ *)
+
+Lemma record_nonempty x rc r : sctx_good x -> record_ok x rc r = true -> render_record rc r <> [].
+Proof.
+  intros Hx Hok. destruct (record_ok_lead x rc r Hok) as (p1 & Hlead). rewrite render_record_split.
+  destruct (record_after_lead x rc r p1 (render_rdata (rc_rdata rc) (a_rdata r) ++ render_eol (rc_end rc)) Hx Hlead Hok)
+    as (h & tl & Eh & _). rewrite Eh. intros H. apply app_eq_nil in H. destruct H as [_ H]. discriminate.
+Qed.
+
+Lemma denote_empty : forall ls x n, sctx_good x -> file_ok x ls = true -> render_file ls = [] -> denote n ls = [].
+Proof.
+  induction ls as [|l ls IH]; intros x n Hx Hok He; [reflexivity|].
+  cbn [file_ok] in Hok. apply andb_true_iff in Hok. destruct Hok as [Hok Hrest]. apply andb_true_iff in Hok. destruct Hok as [Hl _].
+  cbn [render_file] in He. apply app_eq_nil in He. destruct He as [He1 He2].
+  cbn [denote]. destruct l as [rc r| | |]; try (eapply IH; [eapply after_line_good; eassumption|exact Hrest|exact He2]).
+  exfalso. cbn [render_line] in He1. eapply record_nonempty; eassumption.
+Qed.
+
+Lemma lines_loop_file : forall ls x rd fuel, sctx_good x -> file_ok x ls = true ->
+  r_rest rd = render_file ls -> r_paren rd = false -> wfr rd -> (length (r_rest rd) < fuel)%nat ->
+  match denote (p_line (r_pos rd)) ls with
+  | [] => exists c' rd', lines_loop fuel (ctx_of x) rd = Ok (None, c', rd') /\ r_rest rd' = [] /\ wfr rd' /\ r_fuel rd' = r_fuel rd
+  | (n, rec) :: rest =>
+    exists x' ls' rd', lines_loop fuel (ctx_of x) rd = Ok (Some (item_of n rec), ctx_of x', rd') /\
+      sctx_good x' /\ file_ok x' ls' = true /\ r_rest rd' = render_file ls' /\ r_paren rd' = false /\ wfr rd' /\
+      r_fuel rd' = r_fuel rd /\ denote (p_line (r_pos rd')) ls' = rest /\ (length (r_rest rd') < length (r_rest rd))%nat
+  end.
+Proof.
+  induction ls as [|l ls IH]; intros x rd fuel Hx Hok E P W L; (destruct fuel as [|fuel]; [lia|]).
+  - cbn [denote lines_loop]. cbn [render_file] in E. unfold at_eof. rewrite E. eauto 8.
+  - pose proof Hok as Hok0. cbn [file_ok] in Hok. apply andb_true_iff in Hok. destruct Hok as [Hok Hrest]. apply andb_true_iff in Hok. destruct Hok as [Hl Heof].
+    cbn [render_file] in E.
+    destruct (r_rest rd) as [|c0 rest0] eqn:Er.
+    + (* nothing left: the remaining lines are all empty *)
+      rewrite (denote_empty (l :: ls) x _ Hx Hok0); [|cbn [render_file]; rewrite <- E; reflexivity].
+      cbn [lines_loop]. unfold at_eof. rewrite Er. exists (ctx_of x), rd. rewrite Er. auto.
+    + cbn [lines_loop]. unfold at_eof. rewrite Er.
+      assert (Ht : eoft (e_term (line_end l)) (render_file ls)).
+      { intros Hte. destruct ls as [|l2 ls2]; [reflexivity|]. rewrite Hte in Heof. discriminate. }
+      assert (Hne : (1 <= length (render_line l))%nat).
+      { destruct (render_line l) as [|c1 tx] eqn:Etx; [|simpl; lia]. exfalso.
+        destruct l as [rc r|e|lows s nc ls0 e|lows s ic raw e]; cbn [render_line line_end] in *.
+        - exact (record_nonempty x rc r Hx Hl Etx).
+        - unfold render_eol in Etx. apply app_eq_nil in Etx. destruct Etx as [_ Etx].
+          destruct (e_term e) as [[|]|cx [|]| |cx]; try discriminate Etx. rewrite (Ht eq_refl) in E. discriminate E.
+        - destruct (hd false lows); discriminate Etx.
+        - destruct (hd false lows); discriminate Etx. }
+      rewrite <- Er in *. destruct (line_parses x l (render_file ls) rd Hx Hl E P W Ht) as (rd1 & F1 & P1).
+      rewrite F1. pose proof (post_wfr _ _ _ _ _ W E P1) as W1. pose proof (post_len _ _ _ _ _ E P1) as L1.
+      destruct P1 as (A1 & A2 & A3 & A4).
+      pose proof (after_line_good x l Hx Hl) as Hx'.
+      destruct l as [rc r|e|lows s nc ls0 e|lows s ic raw e]; cbn [denote].
+      * exists (after_record x r), ls, rd1. split; [reflexivity|]. split; [exact Hx'|]. split; [exact Hrest|].
+        split; [exact A1|]. split; [exact A2|]. split; [exact W1|]. split; [exact A4|]. split; [rewrite A3; reflexivity|].
+        assert (Hrn : render_record rc r <> []) by (apply (record_nonempty x rc r Hx); exact Hl).
+        cbn [render_line] in L1. destruct (render_record rc r); [congruence|]. simpl in L1. lia.
+      * specialize (IH _ rd1 fuel Hx' Hrest A1 A2 W1 ltac:(lia)). rewrite A3 in IH.
+        destruct (denote (p_line (r_pos rd) + count_nl (render_line (LBlank e))) ls) as [|[n rec] rest].
+        -- destruct IH as (c' & rd' & F & B1 & B2 & B3). exists c', rd'. split; [exact F|]. split; [exact B1|]. split; [exact B2|congruence].
+        -- destruct IH as (x' & ls' & rd' & F & B1 & B2 & B3 & B4 & B5 & B6 & B7 & B8).
+           exists x', ls', rd'. split; [exact F|]. split; [exact B1|]. split; [exact B2|]. split; [exact B3|]. split; [exact B4|]. split; [exact B5|]. split; [congruence|]. split; [exact B7|lia].
+      * specialize (IH _ rd1 fuel Hx' Hrest A1 A2 W1 ltac:(lia)). rewrite A3 in IH.
+        destruct (denote (p_line (r_pos rd) + count_nl (render_line (LOrigin lows s nc ls0 e))) ls) as [|[n rec] rest].
+        -- destruct IH as (c' & rd' & F & B1 & B2 & B3). exists c', rd'. split; [exact F|]. split; [exact B1|]. split; [exact B2|congruence].
+        -- destruct IH as (x' & ls' & rd' & F & B1 & B2 & B3 & B4 & B5 & B6 & B7 & B8).
+           exists x', ls', rd'. split; [exact F|]. split; [exact B1|]. split; [exact B2|]. split; [exact B3|]. split; [exact B4|]. split; [exact B5|]. split; [congruence|]. split; [exact B7|lia].
+      * specialize (IH _ rd1 fuel Hx' Hrest A1 A2 W1 ltac:(lia)). rewrite A3 in IH.
+        destruct (denote (p_line (r_pos rd) + count_nl (render_line (LTtl lows s ic raw e))) ls) as [|[n rec] rest].
+        -- destruct IH as (c' & rd' & F & B1 & B2 & B3). exists c', rd'. split; [exact F|]. split; [exact B1|]. split; [exact B2|congruence].
+        -- destruct IH as (x' & ls' & rd' & F & B1 & B2 & B3 & B4 & B5 & B6 & B7 & B8).
+           exists x', ls', rd'. split; [exact F|]. split; [exact B1|]. split; [exact B2|]. split; [exact B3|]. split; [exact B4|]. split; [exact B5|]. split; [congruence|]. split; [exact B7|lia].
+Qed.
+
+Definition items_of (l : list (N * arec)) : list (line + (pos * zkind)) := map (fun nr => inl (item_of (fst nr) (snd nr))) l.
+
+Lemma collect_file : forall recs ls x rd fuel acc, denote (p_line (r_pos rd)) ls = recs ->
+  sctx_good x -> file_ok x ls = true -> r_rest rd = render_file ls -> r_paren rd = false -> wfr rd ->
+  (length (r_rest rd) < fuel)%nat ->
+  exists p', collect fuel (mkParser false rd (ctx_of x)) acc = Ok (rev acc ++ items_of recs, p').
+Proof.
+  induction recs as [|[n rec] recs IH]; intros ls x rd fuel acc Hd Hx Hok E P W L; (destruct fuel as [|fuel]; [lia|]).
+  - assert (LL : (length (r_rest rd) < r_fuel rd)%nat) by (unfold wfr in W; lia).
+    pose proof (lines_loop_file ls x rd (r_fuel rd) Hx Hok E P W LL) as H. rewrite Hd in H.
+    destruct H as (c' & rd' & F & _). cbn [collect]. unfold parser_next. cbn [ps_error ps_rd ps_ctx]. rewrite F. cbn [bind].
+    eexists. rewrite rev_fast_rev, app_nil_r. reflexivity.
+  - assert (LL : (length (r_rest rd) < r_fuel rd)%nat) by (unfold wfr in W; lia).
+    pose proof (lines_loop_file ls x rd (r_fuel rd) Hx Hok E P W LL) as H. rewrite Hd in H.
+    destruct H as (x' & ls' & rd' & F & B1 & B2 & B3 & B4 & B5 & B6 & B7 & B8).
+    cbn [collect]. unfold parser_next. cbn [ps_error ps_rd ps_ctx]. rewrite F. cbn [bind].
+    destruct (IH ls' x' rd' fuel (inl (item_of n rec) :: acc) B7 B1 B2 B3 B4 B5 ltac:(lia)) as (p' & Hc).
+    exists p'. rewrite Hc. cbn [rev items_of map fst snd]. rewrite <- app_assoc. reflexivity.
+Qed.
+
+Lemma ctx0_of : ctx0 = ctx_of sctx0. Proof. reflexivity. Qed.
+
+(* stage 4: a rendered file parses to exactly the records it denotes, in order, with their line numbers *)
+Theorem file_roundtrip ls : file_ok sctx0 ls = true ->
+  exists p, parse_all (render ls) = Ok (items_of (number_lines ls), p).
+Proof.
+  intros Hok. unfold parse_all, parser_new, render, number_lines. rewrite ctx0_of.
+  destruct (collect_file (denote 1 ls) ls sctx0 (rd_new (render_file ls)) (S (S (length (render_file ls)))) [] eq_refl) as (p & H);
+    [intros ols Ho; discriminate|exact Hok|reflexivity|reflexivity|unfold wfr, rd_new; cbn; lia|unfold rd_new; cbn; lia|].
+  exists p. exact H.
+Qed.
